@@ -35,10 +35,8 @@ void *calloc(size_t n, size_t sz)
 	if (nondet_bool()) { g_lowfail++; return NULL; }
 	size_t tot = n * sz;
 	if (n != 0 && tot / n != sz) { g_lowfail++; return NULL; }
-	char *p = malloc(tot);
-	if (p == NULL) { g_lowfail++; return NULL; }
-	if (tot > 0) __CPROVER_array_set(p, 0);
-	return p;
+	/* zero-initialised object of tot bytes (what CBMC's own calloc model does) */
+	return __CPROVER_allocate(tot, 1);
 }
 
 /* snprintf: any non-negative length (prelude stub); a length that does not fit is a lower-layer
